@@ -6,6 +6,9 @@ use miette::SourceSpan;
 use semver::{Version, VersionReq};
 use std::{fs, path::Path, sync::Arc};
 use wac_types::BorrowedPackageKey;
+#[cfg(feature = "verif-hooks")]
+use crate::verif_seam::{tokio, Client, ClientError, Config, FileSystemClient};
+#[cfg(not(feature = "verif-hooks"))]
 use warg_client::{Client, ClientError, Config, FileSystemClient};
 use warg_protocol::registry::PackageName;
 
